@@ -115,6 +115,24 @@ theorem moveFunds_same (src dst : Addr) : ∀ (l : List (Denom × Nat)) (s s' : 
     · rename_i s1 h1
       exact (bankMove_same s s1 src dst d amt h1).trans (ih s1 s' hx)
 
+/-- moving attached funds changes bank balances only -/
+theorem moveFunds_staking (src dst : Addr) : ∀ (l : List (Denom × Nat)) (s s' : Sys),
+    s.moveFunds src dst l = .ok s' → s'.chain.deleg = s.chain.deleg ∧ s'.chain.delegSet = s.chain.delegSet := by
+  intro l
+  induction l with
+  | nil => intro s s' hx; simp only [Sys.moveFunds] at hx; cases hx; exact ⟨rfl, rfl⟩
+  | cons c rest ih =>
+    intro s s' hx
+    obtain ⟨d, amt⟩ := c
+    simp only [Sys.moveFunds] at hx
+    split at hx
+    · cases hx
+    · rename_i s1 h1
+      have := ih s1 s' hx
+      unfold Sys.bankMove at h1
+      exc_split at h1
+      exact this
+
 /-- Environment events never touch a contract's state, except the test-only seeding of a legacy
     wait-list entry (which models storage written by the pre-migration hub). -/
 theorem env_same (s : Sys) (e : EnvOp) (hl : ∀ u b a, e ≠ .seedLegacy u b a) : SameContracts s (s.env e) := by
@@ -132,9 +150,10 @@ inductive Touch (s s' : Sys) (m : Msg) (ms : List Msg) : Prop where
   | none (h : SameContracts s s')
       (hm : (∀ a b c d, m ≠ .wasm a b c d) ∨ ∃ a b c d, m = .wasm a b c d ∧ (b = swapA ∨ b = sinkA))
       (hs : SentBy swapA ms)
-  | hub (e : HubEnv) (sender : Addr) (funds : List (Denom × Nat)) (hm : HubMsg)
-      (heq : m = .wasm sender hubA (.hub hm) funds) (he : e.self = hubA)
-      (hx : hubExec s.hub e sender funds hm = .ok (s'.hub, ms))
+  | hub (s1 : Sys) (sender : Addr) (funds : List (Denom × Nat)) (hm : HubMsg)
+      (heq : m = .wasm sender hubA (.hub hm) funds) (h1 : SameContracts s s1)
+      (hc : s1.chain.deleg = s.chain.deleg ∧ s1.chain.delegSet = s.chain.delegSet ∧ s'.chain = s1.chain)
+      (hx : hubExec s.hub s1.hubEnv sender funds hm = .ok (s'.hub, ms))
       (b : s'.bsei = s.bsei) (t : s'.stsei = s.stsei) (r : s'.reward = s.reward) (d : s'.disp = s.disp) (g : s'.reg = s.reg)
   | bsei (s1 : Sys) (sender : Addr) (funds : List (Denom × Nat)) (tm : TokMsg)
       (heq : m = .wasm sender bseiA (.tok tm) funds) (h1 : SameContracts s s1)
@@ -204,6 +223,7 @@ theorem handle_touch (s s' : Sys) (m : Msg) (ms : List Msg) (hx : s.handle m = .
     · cases hx
     · rename_i s1 h1
       have sc := moveFunds_same sender target funds s s1 h1
+      have sk := moveFunds_staking sender target funds s s1 h1
       by_cases t1 : target = hubA
       · simp only [t1, if_true] at hx
         split at hx
@@ -212,7 +232,7 @@ theorem handle_touch (s s' : Sys) (m : Msg) (ms : List Msg) (hx : s.handle m = .
           · cases hx
           · rename_i r hr
             cases hx
-            refine .hub s1.hubEnv sender funds hm (by rw [t1]) rfl ?_ sc.bsei sc.stsei sc.reward sc.disp sc.reg
+            refine .hub s1 sender funds hm (by rw [t1]) sc ⟨sk.1, sk.2, rfl⟩ ?_ sc.bsei sc.stsei sc.reward sc.disp sc.reg
             rw [← sc.hub]; exact hr
         · cases hx
       · simp only [t1, if_false] at hx
@@ -312,9 +332,9 @@ theorem handle_sentBy (s s' : Sys) (m : Msg) (ms : List Msg) (hx : s.handle m = 
             · cases hx
             · simp only [ht, sinkA, hubA, bseiA, stseiA, rewardA, dispA, regA, swapA] at hx
               simp at hx
-    | hub e sender funds hm' heq he hx' b' t r d' g =>
+    | hub s1 sender funds hm' heq h1 hc hx' b' t r d' g =>
       rw [hm] at heq; injection heq with _ e2 _ _; subst e2
-      have := hubExec_sentBy _ _ _ _ _ _ _ hx'; rw [he] at this; exact this
+      exact hubExec_sentBy _ _ _ _ _ _ _ hx'
     | bsei s1 sender funds tm heq h1 hx' h t r d' g =>
       rw [hm] at heq; injection heq with _ e2 _ _; subst e2
       exact bseiExec_sentBy _ _ _ _ _ _ _ _ _ hx'
